@@ -42,6 +42,7 @@ const (
 	sigH1ClientDropped = "breaker/http1-client-dropped-on-requests-overflow"
 	sigXRetryLeak      = "breaker/xprotocol-retry-stream-never-destroyed"
 	sigRetryTimeout    = "breaker/request-leak-global-timeout-during-retry-setup"
+	sigConnActNeg      = "gauge/upstream-connection-active-decremented-before-incremented"
 )
 
 // ---------------------------------------------------------------- scenario data (JSON = canonical form)
@@ -115,6 +116,7 @@ type rig struct {
 	done     sync.Map // kind -> *int32 (upstream actions actually executed)
 
 	reqLeakKnown int32 // xprotocol retry leak hit (listed finding): request counters are dropped from the expectation, no idle probes
+	connNegKnown int32 // transient negative upstream connection_active seen (listed finding): those gauges are no longer sampled for sign
 	h1Known    int32 // F10 hit (listed finding): no more idle probes in this case
 	retrKnown  int32 // retries counter went negative and that is a listed finding: skip the retries terms
 	minSeen    obs
@@ -404,7 +406,11 @@ func (r *rig) observe() obs {
 func (o obs) String() string { b, _ := json.Marshal(o); return string(b) }
 
 // negative names the first counter below zero ("" if none). Retries are reported separately.
-func (o obs) negative() (string, int64) {
+func (o obs) negative(skipConnAct bool) (string, int64) {
+	if skipConnAct {
+		o.CluConnAct = 0
+		o.HostConnAct = [maxHosts]int64{}
+	}
 	switch {
 	case o.Req < 0:
 		return "requests", o.Req
@@ -459,7 +465,7 @@ func (r *rig) sampleOnce() {
 		}
 		r.negMu.Unlock()
 	}
-	if what, v := o.negative(); what != "" {
+	if what, v := o.negative(atomic.LoadInt32(&r.connNegKnown) == 1); what != "" {
 		r.negMu.Lock()
 		if r.negWhat == "" {
 			r.negWhat = fmt.Sprintf("%s=%d in %s", what, v, o)
@@ -493,7 +499,20 @@ func (r *rig) checkNegatives(desc func() string) {
 		}
 	}
 	if what != "" {
-		ev.Fail(r.t, r.part, "gauge/negative:"+firstWord(what), "counter below zero: %s\ncase: %s", what, desc())
+		sig := "gauge/negative:" + firstWord(what)
+		if w := firstWord(what); w == "cluster-connection-active" || w == "host-connection-active" {
+			// the pools count a connection after Connect() returned, the close listener that un-counts it is
+			// registered before: a peer that resets at once is un-counted first (transient -1)
+			sig = sigConnActNeg
+			if ev.IsKnown(r.part, sig) {
+				atomic.StoreInt32(&r.connNegKnown, 1)
+				r.negMu.Lock()
+				r.negWhat = ""
+				r.negMu.Unlock()
+				return
+			}
+		}
+		ev.Fail(r.t, r.part, sig, "counter below zero: %s\ncase: %s", what, desc())
 	}
 }
 
